@@ -369,10 +369,51 @@ def replay_reserved_prefix(ctx, ob):
             return {"confirmed": True, "input": v, "observed": f"{type(e).__name__}: {e}"[:200]}
 
 
+def leaf_store_contracts(reg: Registry):
+    """The two real stores against the `_store` statement assumed by the base-class proofs: EVERY call writes (key, value) - there is no
+    "already written" shortcut (another process may have purged the table in between)."""
+    from pyvc import sqlmodel
+    from pyvc.sqlmodel import ConnNative, all_events, sql_events
+    MCS, SCS = "pynenc.client_data_store.mem_client_data_store", "pynenc.client_data_store.sqlite_client_data_store"
+    TAB = MapT(STR, STR)
+    reg.add_shape(Shape("MemClientDataStore", fields={"_storage": TAB}, cls=(MCS, "MemClientDataStore")))
+    reg.shapes["MemClientDataStore"].auto_fields = True
+    mem_store = Contract(key=f"{MCS}:MemClientDataStore._store", shape="MemClientDataStore", params={"key": STR, "value": STR}, frame=["_storage"],
+                         cases=[Case("upsert", ensures=[("stored-under-the-key-on-every-call", lambda c: c.f("_storage") == z3.Store(
+                             c.old("_storage"), c.arg("key"), TAB.opt.some(c.arg("value"))))])], properties=[PID, "C05"])
+    sqlmodel.install(reg, {"data_key": (STR, None), "data_value": (STR, None)})
+    schema = reg.sql_schema
+    reg.add(Contract(key="sqlite3:connect", handler=lambda eng, st, recv, a, kw: [(OK, st, ConnNative(schema))], assumed=True,
+                     note="sqlite3.connect(path) used as a context manager: execute/commit recorded as trace events"))
+    if "Tables" not in reg.shapes:
+        reg.add_shape(Shape("Tables", fields={}))
+    reg.add_shape(Shape("SQLiteClientDataStore", fields={"sqlite_db_path": STR, "tables": ObjT("Tables")}, cls=(SCS, "SQLiteClientDataStore")))
+    reg.shapes["SQLiteClientDataStore"].auto_fields = True
+
+    def one_upsert(c):
+        ws = [e for e in sql_events(c.st) if e["kind"] in ("INSERT", "UPDATE", "DELETE")]
+        if len(ws) != 1 or ws[0]["kind"] != "INSERT" or len(ws[0]["params"]) != 2:
+            return z3.BoolVal(False)
+        text = " ".join(ws[0]["info"]["text"].upper().split())
+        evs = all_events(c.st)
+        iw = max(i for i, e in enumerate(evs) if e.get("ev") == "sql" and e["kind"] == "INSERT")
+        ok = (" OR REPLACE " in " " + text + " " or "DO UPDATE" in text) and any(e.get("ev") == "commit" for e in evs[iw:]) \
+            and ws[0]["info"]["columns"][:2] == ["data_key", "data_value"]
+        return z3.And(z3.BoolVal(ok), ws[0]["params"][0].term == c.arg("key"))
+    sql_store = Contract(key=f"{SCS}:SQLiteClientDataStore._store", shape="SQLiteClientDataStore", params={"key": STR, "value": STR}, frame=[],
+                         cases=[Case("upsert", ensures=[("one-upsert-of-the-key-committed-on-every-call", one_upsert)]),
+                                Case("commit-fault", raises="OperationalError")], properties=[PID, "C05"])
+    reg.sql_commit_faults = True
+    for c in (mem_store, sql_store):
+        reg.add(c)
+    return [mem_store, sql_store]
+
+
 def build(ctx: RunCtx) -> Prop:
     T = Types(ctx.src)
     reg = base_registry(ctx.src, T)
     verify = contracts(T, reg, ctx)
+    verify += leaf_store_contracts(reg)
     return Prop(
         pid=PID, title="compute_args_id = sha256 of the encoding of ALL pairs in sorted-key order ('no_args' when empty); encoding step injective; "
                        "_generate_key content-addressed over the whole value; size routing; resolve(serialize(x)) = x over the abstract store with an LRU invariant",
